@@ -14,6 +14,11 @@ var tokRe = regexp.MustCompile(`@[0-9]+:[0-9]+@`)
 // untok strips position tokens (and modification markers) from a value name.
 func untok(s string) string { return tokRe.ReplaceAllString(unmark(s), "") }
 
+var lineRe = regexp.MustCompile(`#[0-9]+`)
+
+// norm strips position tokens, markers and the declaration-line suffixes of local variables.
+func norm(s string) string { return lineRe.ReplaceAllString(untok(s), "") }
+
 func init() {
 	register("C06", func(c *Ctx) {
 		p := c.P
